@@ -104,7 +104,7 @@ var props = map[string]propInfo{
 	"C15": {Level: "exploration", QuickS: 20, ThoroughS: 600},
 	"C16": {Level: "exploration", QuickS: 20, ThoroughS: 600},
 	"C17": {Level: "exploration", QuickS: 30, ThoroughS: 900, NeedsB: true, NeedsRace: true},
-	"C18": {Level: "exploration", QuickS: 25, ThoroughS: 600, NeedsRace: true},
+	"C18": {Level: "exploration", QuickS: 25, ThoroughS: 600},
 	"C19": {Level: "exploration", QuickS: 20, ThoroughS: 600},
 	// self tests (not properties)
 	"determinism": {Level: "other", QuickS: 20, ThoroughS: 120},
